@@ -20,7 +20,8 @@ EXTENDS Integers, Sequences, FiniteSets, TLC, Json
 CONSTANT Deep   \* TRUE: also every entity that differs from E0 in TWO slots, three-element documents, cuts of those
 
 \* shape alphabets: [name |-> ..., ok |-> BOOLEAN]
-CtxShapes == { [n |-> "ok", ok |-> TRUE], [n |-> "ok_default_prefix", ok |-> TRUE],
+\* swapped_hub_prefixes: a payload of another hub - the prefix names this hub generated, bound the other way round
+CtxShapes == { [n |-> "ok", ok |-> TRUE], [n |-> "ok_default_prefix", ok |-> TRUE], [n |-> "swapped_hub_prefixes", ok |-> TRUE],
                [n |-> "no_namespaces", ok |-> FALSE], [n |-> "namespaces_null", ok |-> FALSE],
                [n |-> "namespaces_array", ok |-> FALSE], [n |-> "namespace_value_number", ok |-> FALSE],
                [n |-> "id_not_context", ok |-> FALSE], [n |-> "missing", ok |-> FALSE] }
@@ -74,7 +75,8 @@ Init ==
   \* documents longer than the handler's flush batch (10 entities): the variant sits after the first flush
   \/ (ctx = Pick(CtxShapes, "ok") /\ cut = 0
        /\ ents \in { [i \in 1..12 |-> IF i = k THEN e ELSE E0] : e \in Variants, k \in (IF Deep THEN {1, 10, 11, 12} ELSE {11, 12}) })
-  \/ (Deep /\ ctx \in {Pick(CtxShapes, "ok"), Pick(CtxShapes, "ok_default_prefix")}
+  \/ (ctx = Pick(CtxShapes, "swapped_hub_prefixes") /\ ents \in { <<a, b>> : a \in ValidVariants, b \in ValidVariants } /\ cut = 0)
+  \/ (Deep /\ ctx \in {Pick(CtxShapes, "ok"), Pick(CtxShapes, "ok_default_prefix"), Pick(CtxShapes, "swapped_hub_prefixes")}
             /\ ents \in { <<e>> : e \in Variants2 } /\ cut = 0)
   \/ (Deep /\ ctx = Pick(CtxShapes, "ok") /\ ents \in { <<E0, e, E0>> : e \in Variants } /\ cut \in 0..4)
   \/ (Deep /\ ctx \in CtxShapes /\ ents \in { <<a, b>> : a \in ValidVariants, b \in ValidVariants } /\ cut = 0)
